@@ -99,7 +99,7 @@ func checkC12(c *Ctx, r *Report) {
 func checkC15(c *Ctx, r *Report) {
 	r.Explanation = "One structural clause (id-domain typing): every lookup in / insertion into a map of sequence parameter sets is keyed by a value from the SPS-id domain " +
 		"(SPS.ParameterID, SPS.SpsID, PPS.SeqParameterSetID) and never by one from the PPS-id domain (PPS.PicParameterSetID, SliceHeader.PicParamID / PicParameterSetId); maps of picture parameter sets the other way round. " +
-		"So the slice resolves its PPS by the slice's pps id and the SPS by THAT PPS's sps id. (T-SPEC) the sample-aspect-ratio table of avc.GetSARfromIDC equals H.264 Table E-1; (FWD-FIELD) no field-to-field copy between two struct types takes the value of a sibling field when both types have both names (e.g. chroma bit depth filled from luma bit depth). Parsed field values, the cropping formula, slice header length and codec strings are NOT decided."
+		"So the slice resolves its PPS by the slice's pps id and the SPS by THAT PPS's sps id. (L-SIBLING) no parser loop fills one of two twin lists (…L0/…L1, …S0/…S1) while deciding with the other list only; (T-SPEC) the sample-aspect-ratio table of avc.GetSARfromIDC equals H.264 Table E-1; (FWD-FIELD) no field-to-field copy between two struct types takes the value of a sibling field when both types have both names (e.g. chroma bit depth filled from luma bit depth). Parsed field values, the cropping formula, slice header length and codec strings are NOT decided."
 	spsDom := map[string]bool{"SPS.ParameterID": true, "SPS.SpsID": true, "PPS.SeqParameterSetID": true}
 	ppsDom := map[string]bool{"PPS.PicParameterSetID": true, "SliceHeader.PicParamID": true, "SliceHeader.PicParameterSetId": true}
 	n := 0
@@ -171,6 +171,15 @@ func checkC15(c *Ctx, r *Report) {
 	}
 	r.Floor("IDDOM", 9)
 	ruleSpecTable(c, r, "avc", "GetSARfromIDC", "aspectRatioTable", [][]int64{{1, 1}, {12, 11}, {10, 11}, {16, 11}, {40, 33}, {24, 11}, {20, 11}, {32, 11}, {80, 33}, {18, 11}, {15, 11}, {64, 33}, {160, 99}, {4, 3}, {3, 2}, {2, 1}}, "ITU-T H.264 Table E-1 (aspect_ratio_idc 1..16)")
+	if n := ruleSiblingSlices(c, r, func(f *ssa.Function) bool {
+		n := SSAFuncName(f)
+		return strings.HasPrefix(n, "avc.") || strings.HasPrefix(n, "hevc.")
+	}); n < 10 {
+		r.Undecided("L-SIBLING", "scope", "", "too few single-list loops found")
+	} else {
+		r.OK("L-SIBLING", "scope", "", fmt.Sprintf("%d loops that fill the elements of one slice field in avc and hevc: none decides with the twin list only", n))
+	}
+	requireFixture(r, "L-SIBLING", "siblingLoop", func(fc *Ctx, s *Report) { ruleSiblingSlices(fc, s, nil) })
 	// copy-paste detector on parameter-set -> configuration-record / descriptor field copies
 	pairs := ruleCrossWired(c, r, "FWD-FIELD", func(f *ssa.Function) bool {
 		n := SSAFuncName(f)
